@@ -18,6 +18,7 @@ import SarpyModel.Drivers.Ortho
 import SarpyModel.Drivers.Chip
 import SarpyModel.Drivers.Supported
 import SarpyModel.Drivers.Segment
+import SarpyModel.Drivers.FieldFmt2
 namespace Sarpy.Drivers
 
 def step (line : String) : String :=
@@ -43,6 +44,7 @@ def step (line : String) : String :=
   | "chip" :: rest => (chipStep rest).getD "bad-op"
   | "supported" :: rest => (supportedStep rest).getD "bad-op"
   | "seg" :: rest => (segStep rest).getD "bad-op"
+  | "fmt2" :: rest => (fmt2Step rest).getD "bad-op"
   | _ => "bad-op"
 
 partial def loop (h : IO.FS.Stream) : IO Unit := do
